@@ -109,7 +109,16 @@ class SuperNet(DNAS):
         :rtype: nn.Module
         """
         model = self.seed
+        # conversion runs the model in eval mode (tracing and shape propagation): restore the
+        # training flags and the sampled coefficients afterwards
+        modes = [(m, m.training) for m in self.seed.modules()]
+        thetas = [(m, m.theta_alpha) for m in self.seed.modules()
+                  if isinstance(m, SuperNetCombiner)]
         model, _, _ = convert(model, self._input_example, 'export')
+        for m, mode in modes:
+            m.training = mode
+        for m, theta_alpha in thetas:
+            m.theta_alpha = theta_alpha
         return model
 
     def summary(self) -> Dict[str, Dict[str, Any]]:
